@@ -1,8 +1,473 @@
 import QP.Base
-namespace QP.C05
-open Sexp
+import QP.Model.PT
+/-!
+# C05 — compilation options never change what is played
 
-def handle : List Sexp → Sexp
-  | _ => Sexp.err "c05-not-implemented"
+Builds on the shared pulse-template model `QP.PT` (which already carries the `to_single_waveform` set
+`Ctx.single` and the global transformation `Ctx.trafo` through `compile`).  This file adds
+
+* `GTrafo` / `GChain` — all `Transformation` classes of `qupulse/program/transformation.py` incl.
+  `LinearTransformation`, applied to a dictionary of channel values (`apply`) and to a channel-value
+  *function* (`Trafo.applyF`, `Chain.applyF`: what "T applied pointwise" means in the theorems);
+* `createProgramT` — `create_program(global_transformation=T, to_single_waveform=S)`;
+* the convenience constructors as functions on `PT` (`concatenate`, `withRepetition`, `padTo`, `withMapping`,
+  `withParallelChannels`, `withTimeReversal`, `withIteration`, `withAppended`, `withParallelAtomic`)
+  mirroring the code, next to the explicit nesting each one replaces;
+* the class predicates of the open findings (PF-11, junction part of PF-04) and the hypotheses of the
+  `_partial` theorems;
+* the line protocol `handle`.
+-/
+namespace QP.C05
+open QP QP.PT Sexp
+
+/-! ## Transformations -/
+
+/-- `Transformation` classes with numeric (time independent) values -/
+inductive GTrafo where
+  | offset (m : List (Chan × Rat))
+  | scaling (m : List (Chan × Rat))
+  | parallel (m : List (Chan × Rat))
+  /-- `LinearTransformation`: `ins`/`outs` sorted as the object stores them, `mat` has one row per output -/
+  | linear (ins outs : List Chan) (mat : List (List Rat))
+  deriving Repr, Inhabited
+
+/-- a `ChainedTransformation` applied left to right (`[]` = identity / `None`) -/
+abbrev GChain := List GTrafo
+
+/-- a dictionary channel ↦ value (`none` = NaN) -/
+abbrev Vec := List (Chan × Option Rat)
+
+/-- `matrix_row @ data_in`; NaN propagates (also through a zero coefficient) -/
+def dot : List Rat → List (Option Rat) → Option Rat
+  | a :: as, some x :: xs => (dot as xs).map (fun r => a * x + r)
+  | _ :: _, none :: _ => none
+  | _, _ => some 0
+
+/-- `Transformation.__call__(time, data)` -/
+def GTrafo.apply (T : GTrafo) (data : Vec) : Except Err Vec :=
+  match T with
+  | .offset m => .ok ((Trafo.offset m).apply data)
+  | .scaling m => .ok ((Trafo.scaling m).apply data)
+  | .parallel m => .ok ((Trafo.parallel m).apply data)
+  | .linear ins outs mat =>
+      let fwd := data.filter (fun (c, _) => !ins.contains c)
+      if fwd.length == data.length then .ok fwd
+      else match ins.mapM (fun c => data.lookup c) with
+        | none => .error .keyError
+        | some xs =>
+          .ok (fwd.filter (fun (c, _) => !outs.contains c) ++ (outs.zip mat).map (fun (o, row) => (o, dot row xs)))
+
+def GChain.apply (T : GChain) (data : Vec) : Except Err Vec :=
+  T.foldlM (fun d t => t.apply d) data
+
+/-- the chains `compile` can carry (no `LinearTransformation`) -/
+def GChain.toChain? : GChain → Option Chain
+  | [] => some []
+  | .offset m :: r => (GChain.toChain? r).map (Trafo.offset m :: ·)
+  | .scaling m :: r => (GChain.toChain? r).map (Trafo.scaling m :: ·)
+  | .parallel m :: r => (GChain.toChain? r).map (Trafo.parallel m :: ·)
+  | .linear .. :: _ => none
+
+/-- what a transformation does to ONE channel `c`: the argument and the result say whether the channel is
+present (`none` = absent) and what its value is (`some none` = NaN).  Offset, scaling and parallel-channel
+transformations act channel by channel. -/
+def Trafo.chanF (T : Trafo) (c : Chan) (x : Option (Option Rat)) : Option (Option Rat) :=
+  match T with
+  | .offset m => match m.lookup c with
+      | some o => x.map (fun v => v.map (· + o))
+      | none => x
+  | .scaling m => match m.lookup c with
+      | some k => x.map (fun v => v.map (· * k))
+      | none => x
+  | .parallel m => match m.lookup c with
+      | some o => some (some o)
+      | none => x
+
+def Chain.chanF (T : Chain) (c : Chan) (x : Option (Option Rat)) : Option (Option Rat) :=
+  T.foldl (fun y t => Trafo.chanF t c y) x
+
+/-- channel-value function: `none` = channel absent, `some none` = NaN -/
+abbrev Vals := Chan → Option (Option Rat)
+
+/-- a transformation applied pointwise to a channel-value function -/
+def Trafo.applyF (T : Trafo) (f : Vals) : Vals := fun c => Trafo.chanF T c (f c)
+
+def Chain.applyF (T : Chain) (f : Vals) : Vals := fun c => Chain.chanF T c (f c)
+
+/-- the function a dictionary stands for -/
+def Vec.toVals (d : Vec) : Vals := fun c => d.lookup c
+
+/-! ## `create_program(global_transformation=, to_single_waveform=)` -/
+
+def createProgramT (pt : PT) (params : List (String × Rat)) (mm : Option (List (MName × Option MName)))
+    (cmUser : List (Chan × Option Chan)) (single : List String) (T : Chain) : Except Err (Option Loop) := do
+  let ctx ← topCtx pt params mm cmUser single
+  let items ← compile pt { ctx with trafo := T }
+  pure (toProgram items)
+
+/-- the observables the property speaks about -/
+structure Obs where
+  dur : Rat
+  windows : List Window
+  sample : Chan → Rat → Option Rat
+
+def Loop.obs (l : Loop) : Obs := { dur := l.duration, windows := l.windows, sample := l.sample }
+
+/-! ## Convenience constructors (`pulse_template.py`, `sequence_pulse_template.py`,
+`repetition_pulse_template.py`, `multi_channel_pulse_template.py`, `time_reversal_pulse_template.py`) -/
+
+/-- `SequencePulseTemplate.concatenate(*pts, **kwargs)`: sequence templates without identifier, measurements
+and constraints are replaced by their sub-templates -/
+def concatenate (pts : List PT) (id : Option String) (meas : List MeasDecl) (cons : List Expr) : PT :=
+  .seq id (pts.flatMap (fun p => match p with
+    | .seq none subs [] [] => subs
+    | p => [p])) meas cons
+
+def concatenateExplicit (pts : List PT) (id : Option String) (meas : List MeasDecl) (cons : List Expr) : PT :=
+  .seq id pts meas cons
+
+/-- `__matmul__` -/
+def matmul (a b : PT) : PT := concatenate [a, b] none [] []
+
+/-- `with_appended` -/
+def withAppended (pt : PT) (appended : List PT) : PT :=
+  if appended.isEmpty then pt else concatenate (pt :: appended) none [] []
+
+def withAppendedExplicit (pt : PT) (appended : List PT) : PT :=
+  if appended.isEmpty then pt else .seq none (pt :: appended) [] []
+
+/-- `with_repetition` (`RepetitionPulseTemplate` overrides it: an unnamed repetition without measurement
+declarations — PF-10 repaired — is merged into one repetition with the product count) -/
+def withRepetition (pt : PT) (count : Expr) : PT :=
+  match pt with
+  | .rep none body c [] cons => .rep none body (.mul c count) [] cons
+  | p => .rep none p count [] []
+
+def withRepetitionExplicit (pt : PT) (count : Expr) : PT := .rep none pt count [] []
+
+/-- `with_iteration` -/
+def withIteration (pt : PT) (idx : String) (start stop step : Expr) : PT :=
+  .forLoop none pt idx start stop step [] []
+
+/-- simultaneous substitution (`Expression.evaluate_symbolic` / `recursive_substitution`) -/
+def substE (m : List (String × Expr)) : Expr → Expr
+  | .lit q => .lit q
+  | .var x => match m.lookup x with
+      | some e => e
+      | none => .var x
+  | .add a b => .add (substE m a) (substE m b)
+  | .mul a b => .mul (substE m a) (substE m b)
+  | .pow a n => .pow (substE m a) n
+  | .max a b => .max (substE m a) (substE m b)
+  | .min a b => .min (substE m a) (substE m b)
+  | .floor a => .floor (substE m a)
+  | .ceil a => .ceil (substE m a)
+  | .abs a => .abs (substE m a)
+  | .cmp c a b => .cmp c (substE m a) (substE m b)
+  | .unsupported => .unsupported
+
+/-- `MappingPulseTemplate.__init__` on complete mappings ("avoid nested mappings"): an unnamed mapping template
+without parameter constraints (PF-C05c repaired) as the mapped template is merged with the new one — its parameter
+expressions are rewritten by the new parameter mapping, its measurement and channel targets are looked up in the
+new mappings; a channel the inner template drops stays dropped (PF-C05b repaired).  `none` = the constructor
+raises (a target that the new mapping does not know). -/
+def mkMapping (id : Option String) (pt : PT) (pm : List (String × Expr)) (mm : List (MName × MName))
+    (cm : List (Chan × Option Chan)) (cons : List Expr) : Option PT :=
+  match pt with
+  | .mapping none body pm' mm' cm' [] => do
+      let mm'' ← mm'.mapM (fun (k, v) => (mm.lookup v).map (fun r => (k, r)))
+      let cm'' ← cm'.mapM (fun (k, v) => match v with
+        | none => some (k, none)
+        | some o => (cm.lookup o).map (fun r => (k, r)))
+      some (.mapping id body (pm'.map (fun (p, e) => (p, substE pm e))) mm'' cm'' cons)
+  | p => some (.mapping id p pm mm cm cons)
+
+/-- `with_mapping` (the mappings as `MappingPulseTemplate.__init__` completes them) -/
+def withMapping (pt : PT) (pm : List (String × Expr)) (mm : List (MName × MName))
+    (cm : List (Chan × Option Chan)) : Option PT :=
+  mkMapping none pt pm mm cm []
+
+def withMappingExplicit (pt : PT) (pm : List (String × Expr)) (mm : List (MName × MName))
+    (cm : List (Chan × Option Chan)) : PT :=
+  .mapping none pt pm mm cm []
+
+/-- `dict` update `{**a, **b}` on expression dictionaries -/
+def exprDictSet (d : List (Chan × Expr)) (k : Chan) (v : Expr) : List (Chan × Expr) :=
+  if (d.lookup k).isSome then d.map (fun (c, x) => if c = k then (c, v) else (c, x)) else d ++ [(k, v)]
+
+def exprDictUpdate (a b : List (Chan × Expr)) : List (Chan × Expr) :=
+  b.foldl (fun d (k, v) => exprDictSet d k v) a
+
+/-- `with_parallel_channels` (`ParallelChannelPulseTemplate` overrides it: an unnamed one is extended) -/
+def withParallelChannels (pt : PT) (values : List (Chan × Expr)) : PT :=
+  match pt with
+  | .parallel none body over => .parallel none body (exprDictUpdate over values)
+  | p => .parallel none p values
+
+def withParallelChannelsExplicit (pt : PT) (values : List (Chan × Expr)) : PT := .parallel none pt values
+
+/-- `with_time_reversal` (`TimeReversalPulseTemplate` overrides it: an unnamed reversal is undone) -/
+def withTimeReversal (pt : PT) : PT :=
+  match pt with
+  | .timeReversal none inner => inner
+  | p => .timeReversal none p
+
+def withTimeReversalExplicit (pt : PT) : PT := .timeReversal none pt
+
+/-- `with_parallel_atomic` (`AtomicMultiChannelPulseTemplate` overrides it: an unnamed one is extended; its
+explicit duration is not carried over) -/
+def withParallelAtomic (pt : PT) (par : List PT) : PT :=
+  if par.isEmpty then pt else
+  match pt with
+  | .atomicMulti none subs _ meas cons => .atomicMulti none (subs ++ par) none meas cons
+  | p => .atomicMulti none (p :: par) none [] []
+
+def withParallelAtomicExplicit (pt : PT) (par : List PT) : PT :=
+  if par.isEmpty then pt else .atomicMulti none (pt :: par) none [] []
+
+/-- `pad_to`: `padDur` = `new_duration - self.duration`, `finals` = `self.final_values` (both symbolic
+properties of the template, C04/C07), `isZero` = the symbolic test `pad_duration == 0`, `kw` = `pt_kwargs` -/
+def padTo (pt : PT) (padDur : Expr) (finals : List (Chan × Expr)) (isZero : Bool)
+    (kw : Option (Option String × List MeasDecl × List Expr)) : PT :=
+  if kw.isNone && isZero then pt else
+  let pad := PT.const none padDur finals []
+  match kw with
+  | some (id, meas, cons) => .seq id [pt, pad] meas cons
+  | none => matmul pt pad
+
+def padToExplicit (pt : PT) (padDur : Expr) (finals : List (Chan × Expr)) (isZero : Bool)
+    (kw : Option (Option String × List MeasDecl × List Expr)) : PT :=
+  if kw.isNone && isZero then pt else
+  let pad := PT.const none padDur finals []
+  match kw with
+  | some (id, meas, cons) => .seq id [pt, pad] meas cons
+  | none => .seq none [pt, pad] [] []
+
+/-! ## Classes of the open findings and hypotheses of the `_partial` theorems -/
+
+mutual
+/-- identifiers of all templates that are entered through `_create_program` below (and including) a node -/
+def idents : PT → List String
+  | .const id .. | .table id .. | .point id .. | .func id .. | .atomicMulti id .. | .arithAtomic id .. =>
+      id.toList
+  | .seq id subs _ _ => id.toList ++ identsList subs
+  | .rep id body .. => id.toList ++ idents body
+  | .forLoop id body .. => id.toList ++ idents body
+  | .mapping id body .. => id.toList ++ idents body
+  | .parallel id body _ => id.toList ++ idents body
+  | .arith id body .. => id.toList ++ idents body
+  | .timeReversal id body => id.toList ++ idents body
+def identsList : List PT → List String
+  | [] => []
+  | p :: ps => idents p ++ identsList ps
+end
+
+/-- identifiers of the templates entered through `_create_program` strictly below a node
+(`TimeReversalPulseTemplate` calls `_internal_create_program` of its inner template directly) -/
+def identsBelow : PT → List String
+  | .seq _ subs _ _ => identsList subs
+  | .rep _ body .. | .forLoop _ body .. | .mapping _ body .. | .parallel _ body _ | .arith _ body .. => idents body
+  | .timeReversal _ body => identsBelow body
+  | _ => []
+
+/-- is the template collapsed by the `to_single_waveform` set `S`? -/
+def isColl (S : List String) (p : PT) : Bool :=
+  match p.ident with
+  | some n => S.contains n
+  | none => false
+
+mutual
+/-- Hypothesis of the `_partial` theorems (complement of the classes of the open findings PF-11 and
+PF-04-junction, coarsened).  `S` = the identifiers collapsed by either of the two option sets compared,
+`tr1` = a transformation may be in effect in both compilations, `tr2` = the first compilation may carry an
+additional transformation.
+* A `ParallelChannelPulseTemplate` (entered through `_internal_create_program`, i.e. not below an atomic
+  template) must not be reached with an additional transformation (`tr2`), which is also the situation of a
+  collapsed template below a transformation: PF-11.
+* A `TimeReversalPulseTemplate` must not be reached with an additional transformation and must not contain a
+  collapsed template: PF-04-junction. -/
+def cleanG (S : List String) (tr1 tr2 : Bool) : PT → Bool
+  | .const .. | .table .. | .point .. | .func .. | .atomicMulti .. | .arithAtomic .. => true
+  | .seq _ subs _ _ => cleanL S tr1 tr2 subs
+  | .rep _ body .. => cleanG S tr1 tr2 body && (!(isColl S body) || cleanG S false (tr1 || tr2) body)
+  | .forLoop _ body .. => cleanG S tr1 tr2 body && (!(isColl S body) || cleanG S false (tr1 || tr2) body)
+  | .mapping _ body .. => cleanG S tr1 tr2 body && (!(isColl S body) || cleanG S false (tr1 || tr2) body)
+  | .parallel _ body _ => !tr2 && (cleanG S true false body && (!(isColl S body) || cleanG S false true body))
+  | .arith _ body .. => cleanG S true tr2 body && (!(isColl S body) || cleanG S false true body)
+  | .timeReversal _ body => !tr2 && (identsBelow body).all (fun i => !S.contains i)
+def cleanL (S : List String) (tr1 tr2 : Bool) : List PT → Bool
+  | [] => true
+  | p :: ps => (cleanG S tr1 tr2 p && (!(isColl S p) || cleanG S false (tr1 || tr2) p)) && cleanL S tr1 tr2 ps
+end
+
+/-- the hypothesis for a template entered through `_create_program` -/
+def cleanW (S : List String) (tr1 tr2 : Bool) (p : PT) : Bool :=
+  cleanG S tr1 tr2 p && (!(isColl S p) || cleanG S false (tr1 || tr2) p)
+
+/-! ## Line protocol -/
+
+def kvRatList? (s : Sexp) : Option (List (Chan × Rat)) := Sexp.listOf? kvRat? s
+
+def GTrafo.ofSexp : Sexp → Option GTrafo
+  | .list [.atom "offset", m] => (kvRatList? m).map .offset
+  | .list [.atom "scaling", m] => (kvRatList? m).map .scaling
+  | .list [.atom "parallel", m] => (kvRatList? m).map .parallel
+  | .list [.atom "linear", ins, outs, mat] => do
+      let ins ← Sexp.listOf? str? ins
+      let outs ← Sexp.listOf? str? outs
+      let mat ← Sexp.listOf? (Sexp.listOf? Sexp.rat?) mat
+      some (.linear ins outs mat)
+  | _ => none
+
+def gchainOf? (args : List Sexp) : Option GChain :=
+  match findField "gt" args with
+  | none => some []
+  | some l => l.mapM GTrafo.ofSexp
+
+def optRat? : Sexp → Option (Option Rat)
+  | .atom "nan" => some none
+  | s => (Sexp.rat? s).map some
+
+/-- observables of a compiled program (same layout as `QP.PT.modelObservables`) -/
+def programObservables (r : Request) (res : Except Err (Option Loop)) : Sexp :=
+  match res with
+  | .error e => errSx e
+  | .ok none => .list [.atom "empty"]
+  | .ok (some prog) =>
+    let chans := prog.channelSet
+    let samples : Sexp := match chans with
+      | none => .list [.atom "samples", .atom "nonuniform"]
+      | some cs => if r.wantSamples then
+          .list (.atom "samples" :: cs.map (fun c => .list (.atom c :: r.grid.map (fun t => optRatSx (prog.sample c t)))))
+        else .list [.atom "samples"]
+    let wfdur : Sexp := match prog.toWaveform with
+      | .ok w => Sexp.ofRat w.duration
+      | .error e => errSx e
+    .list [.atom "ok",
+      .list (.atom "chans" :: (match chans with | some cs => cs.map Sexp.atom | none => [.atom "nonuniform"])),
+      .list [.atom "dur", Sexp.ofRat prog.duration],
+      .list [.atom "wfdur", wfdur],
+      .list [.atom "pieces", Sexp.ofRat prog.piecesSum],
+      samples,
+      .list (.atom "windows" :: (if r.wantWindows then prog.windows.map windowSx else []))]
+
+/-- observables of a denoted pulse with a chain applied pointwise -/
+def pulseObservables (r : Request) (T : Chain) (res : Except Err Pulse) : Sexp :=
+  match res with
+  | .error e => errSx e
+  | .ok p =>
+    if p.isEmpty then .list [.atom "empty"] else
+    let chans := T.foldl (fun cs t => applyTrafoPL t p.dur cs) p.chans
+    .list [.atom "ok",
+      .list (.atom "chans" :: chans.map (fun c => Sexp.atom c.1)),
+      .list [.atom "dur", Sexp.ofRat p.dur],
+      .list (.atom "samples" :: (if r.wantSamples then chans.map (fun (c, pl) =>
+        .list (.atom c :: r.grid.map (fun t => .list ((PL.adm none pl t).map Sexp.ofRat)))) else [])),
+      .list (.atom "finals" :: chans.map (fun (c, pl) =>
+        .list [.atom c, match pl.getLast? with | some s => Sexp.ofRat s.v1 | none => .atom "nan"])),
+      .list (.atom "windows" :: (if r.wantWindows then p.windows.map windowSx else []))]
+
+def boolSx (b : Bool) : Sexp := .atom (if b then "true" else "false")
+
+def kwOf? : Sexp → Option (Option (Option String × List MeasDecl × List Expr))
+  | .atom "none" => some none
+  | .list [id, meas, cons] => do
+      some (some ((← optAtom? id), (← measList? meas), (← consList? cons)))
+  | _ => none
+
+/-- `(helper, explicit nesting)` for one helper request -/
+def helperPair (name : String) (args : List Sexp) : Option (Option PT × PT) := do
+  let pt1 (f : String) : Option PT := match findField f args with | some [p] => PT.ofSexp p | _ => none
+  let pts (f : String) : Option (List PT) := (findField f args).bind (fun l => l.mapM PT.ofSexp)
+  let ex1 (f : String) : Option Expr := match findField f args with | some [e] => Expr.ofSexp e | _ => none
+  match name with
+  | "concatenate" =>
+      let kw ← match findField "kw" args with | some [k] => kwOf? k | _ => some none
+      let (id, meas, cons) := kw.getD (none, [], [])
+      let ps ← pts "args"
+      some (some (concatenate ps id meas cons), concatenateExplicit ps id meas cons)
+  | "matmul" => do
+      let ps ← pts "args"
+      match ps with
+      | [a, b] => some (some (matmul a b), .seq none [a, b] [] [])
+      | _ => none
+  | "withAppended" => do
+      let p ← pt1 "arg"; let ps ← pts "args"
+      some (some (withAppended p ps), withAppendedExplicit p ps)
+  | "withRepetition" => do
+      let p ← pt1 "arg"; let c ← ex1 "count"
+      some (some (withRepetition p c), withRepetitionExplicit p c)
+  | "withIteration" => do
+      let p ← pt1 "arg"
+      let idx ← match findField "idx" args with | some [.atom i] => some i | _ => none
+      let a ← ex1 "start"; let b ← ex1 "stop"; let s ← ex1 "step"
+      some (some (withIteration p idx a b s), .forLoop none p idx a b s [] [])
+  | "withMapping" => do
+      let p ← pt1 "arg"
+      let pm ← (← findField "pm" args).mapM kvExpr?
+      let mm ← (← findField "mmap" args).mapM kvStr?
+      let cm ← (← findField "cmap" args).mapM kvOpt?
+      some (withMapping p pm mm cm, withMappingExplicit p pm mm cm)
+  | "withParallelChannels" => do
+      let p ← pt1 "arg"
+      let vs ← (← findField "values" args).mapM kvExpr?
+      some (some (withParallelChannels p vs), withParallelChannelsExplicit p vs)
+  | "withTimeReversal" => do
+      let p ← pt1 "arg"
+      some (some (withTimeReversal p), withTimeReversalExplicit p)
+  | "withParallelAtomic" => do
+      let p ← pt1 "arg"; let ps ← pts "args"
+      some (some (withParallelAtomic p ps), withParallelAtomicExplicit p ps)
+  | "padTo" => do
+      let p ← pt1 "arg"; let pad ← ex1 "pad"
+      let finals ← (← findField "finals" args).mapM kvExpr?
+      let z ← match findField "zero" args with | some [b] => Sexp.bool? b | _ => none
+      let kw ← match findField "kw" args with | some [k] => kwOf? k | _ => some none
+      some (some (padTo p pad finals z kw), padToExplicit p pad finals z kw)
+  | _ => none
+
+def handle (args : List Sexp) : Sexp :=
+  match args with
+  | .atom "run" :: rest =>
+    match Request.ofSexp rest, gchainOf? rest with
+    | some r, some g =>
+      let spec0 := if r.wantSpec then denoteTop r.pt r.params r.mm r.cm else .error .unsupported
+      let cls := .list [.atom "class",
+        .list [.atom "clean", boolSx (cleanW r.single false (!g.isEmpty) r.pt)]]
+      match g.toChain? with
+      | some T =>
+        .list [.list [.atom "model", programObservables r (createProgramT r.pt r.params r.mm r.cm r.single T)],
+               .list [.atom "spec", if r.wantSpec then pulseObservables r T spec0 else .list [.atom "skipped"]],
+               cls]
+      | none =>
+        .list [.list [.atom "model", .list [.atom "skipped"]],
+               .list [.atom "spec", if r.wantSpec then pulseObservables r [] spec0 else .list [.atom "skipped"]],
+               cls]
+    | _, _ => Sexp.err "malformed-request"
+  | .atom "gtapply" :: rest =>
+    match gchainOf? rest, findField "chans" rest, findField "rows" rest with
+    | some g, some chans, some rows =>
+      match chans.mapM str?, rows.mapM (Sexp.listOf? optRat?) with
+      | some cs, some rs =>
+        .list (rs.map (fun row => match g.apply (cs.zip row) with
+          | .ok out => .list (.atom "ok" :: out.map (fun (c, v) => .list [.atom c, optRatSx v]))
+          | .error e => errSx e))
+      | _, _ => Sexp.err "malformed-gtapply"
+    | _, _, _ => Sexp.err "malformed-gtapply"
+  | .atom "helper" :: .atom name :: rest =>
+    match Request.ofSexp (.list [.atom "pt", .list [.atom "rev", .atom "none",
+            .list [.atom "const", .atom "none", .atom "1", .list [], .list []]]] :: rest), helperPair name rest with
+    | some r, some (h?, e) =>
+      match h? with
+      | none => .list [.list [.atom "helper", errSx .keyError], .list [.atom "explicit", pulseObservables r [] (denoteTop e r.params r.mm r.cm)],
+                       .list [.atom "helper-model", errSx .keyError],
+                       .list [.atom "explicit-model", programObservables r (createProgramT e r.params r.mm r.cm [] [])]]
+      | some h =>
+      .list [.list [.atom "helper", pulseObservables r [] (denoteTop h r.params r.mm r.cm)],
+             .list [.atom "explicit", pulseObservables r [] (denoteTop e r.params r.mm r.cm)],
+             .list [.atom "helper-model", programObservables r (createProgramT h r.params r.mm r.cm [] [])],
+             .list [.atom "explicit-model", programObservables r (createProgramT e r.params r.mm r.cm [] [])]]
+    | _, _ => Sexp.err "malformed-helper-request"
+  | _ => Sexp.err "unknown-c05-request"
 
 end QP.C05
